@@ -73,6 +73,23 @@ def vqe_configs(quick):
     cf.append(C("H4muhf-fz-UCCSD-scbk", "H4-_uhf_fz", "UCCSD", "scbk", False, nthetas=3, hist=not quick))
     cf.append(C("H2muhf-UCCSD-scbk", "H2-_uhf", "UCCSD", "scbk", False, nthetas=2))
     cf.append(C("H2uhf-UCCSD-bk", "H2_uhf", "UCCSD", "bk", True, nthetas=2))
+    # spin matrix {closed, doublet, triplet, quartet} x encodings x orderings x {ROHF, UHF}: the per-term encoding inside
+    # get_rdm / get_rdm_uhf needs the spin (scBK: parity of n_alpha)
+    cf.append(C("H3pT-UCCSD-scbk-alt", "H3+_t", "UCCSD", "scbk", False, nthetas=2))
+    cf.append(C("H3pT-UCCSD-scbk-utd", "H3+_t", "UCCSD", "scbk", True, nthetas=2))
+    cf.append(C("H3pTuhf-UCCSD-scbk", "H3+_t_uhf", "UCCSD", "scbk", False, nthetas=2))
+    cf.append(C("H2T-UCCSD-jw", "H2_t", "UCCSD", "jw", True, nthetas=1))
+    cf.append(C("H2T-UCCSD-bk", "H2_t", "UCCSD", "bk", False, nthetas=1))
+    cf.append(C("H2T-UCCSD-scbk", "H2_t", "UCCSD", "scbk", False, nthetas=1))
+    cf.append(C("H3Q-UCCSD-scbk", "H3_q", "UCCSD", "scbk", True, nthetas=1))
+    cf.append(C("H3Q-UCCSD-jkmn", "H3_q", "UCCSD", "jkmn", False, nthetas=1, M=16))
+    if not quick:
+        cf.append(C("H3pT-UCCSD-jw", "H3+_t", "UCCSD", "jw", False, nthetas=2, budget=3))
+        cf.append(C("H3pT-UCCSD-bk", "H3+_t", "UCCSD", "bk", True, nthetas=2, budget=3))
+        cf.append(C("H3pT-UCCSD-jkmn", "H3+_t", "UCCSD", "jkmn", False, nthetas=2, budget=3))
+        cf.append(C("H4T-UCCSD-scbk", "H4_t", "UCCSD", "scbk", False, engine="cliff", M=8, nthetas=2))
+        cf.append(C("H4T-UCCSD-scbk-utd", "H4_t", "UCCSD", "scbk", True, engine="cliff", M=8, nthetas=2))
+        cf.append(C("H4Tuhf-UCCSD-scbk", "H4_t_uhf", "UCCSD", "scbk", False, engine="cliff", M=8, nthetas=2))
     cf.append(C("H4-UCCSD-jw", "H4", "UCCSD", "jw", False, engine="cliff", M=8, nthetas=1 if quick else 3))
     if not quick:
         cf.append(C("H4-UCCSD-scbk", "H4", "UCCSD", "scbk", True, engine="cliff", M=8, nthetas=2))
@@ -732,6 +749,33 @@ INVARIANT Exported
 """
 
 
+LAYOUTS = ("C", "F", "tview", "slice", "readonly")
+LAYOUT_DOC = {"C": "C-contiguous", "F": "Fortran-ordered", "tview": "transpose(1,0,3,2) view of a contiguous buffer, as CCSDSolver.get_rdm returns",
+              "slice": "strided slice view of a larger array", "readonly": "read-only array"}
+
+
+def as_layout(a, layout):
+    """(array with the values of `a` in the requested memory layout, the buffer that owns its memory)"""
+    if layout == "C":
+        v = np.ascontiguousarray(a).copy()
+        return v, v
+    if layout == "F":
+        v = np.asfortranarray(a).copy(order="F")
+        return v, v
+    if layout == "tview":
+        ax = (1, 0, 3, 2) if a.ndim == 4 else (1, 0)
+        buf = np.ascontiguousarray(a.transpose(ax)).copy()
+        return buf.transpose(ax), buf
+    if layout == "slice":
+        buf = np.full(tuple(2 * n + 1 for n in a.shape), 7.25)
+        v = buf[tuple(slice(1, None, 2) for _ in a.shape)]
+        v[...] = a
+        return v, buf
+    v = np.ascontiguousarray(a).copy()
+    v.flags.writeable = False
+    return v, v
+
+
 def pad_check_record(chk, sh, mol, mol_full, rec, M=8):
     """Feed TLC's exact active RDMs to the padding helper; compare with TLC's exact full-space RDMs."""
     from tangelo.toolboxes.molecular_computation.rdms import pad_rdms_with_frozen_orbitals_restricted, pad_rdms_with_frozen_orbitals_unrestricted
@@ -753,18 +797,41 @@ def pad_check_record(chk, sh, mol, mol_full, rec, M=8):
         fn = pad_rdms_with_frozen_orbitals_restricted
     ins = list(a1) + list(a2) if uhf else [a1, a2]
     before = [x.copy() for x in ins]
-    try:
-        p1, p2 = fn(mol, a1, a2)
-    except Exception as e:
-        chk.violation(key0 + ":exception:%s" % type(e).__name__, "%s: %s" % (sh["name"], e), case)
-        return False
-    ok = True
     labs = (["1rdm-a", "1rdm-b", "2rdm-aa", "2rdm-ab", "2rdm-bb"] if uhf else ["1rdm", "2rdm"])
-    for lab, b, a in zip(labs, before, ins):
-        if not (np.array_equal(a, b) and a.dtype == b.dtype and a.shape == b.shape):
-            chk.violation(key0 + ":input-mutated:%s" % lab.split("-")[0],
-                          "%s: the caller's %s array is altered by the padding call (max |change| = %.3g)" % (sh["name"], lab, np.max(np.abs(a - b))), case)
+    ok = True
+    p1 = p2 = None
+    # FRAME CONDITION over memory layouts: the same exact values are handed over as a C-contiguous array, a Fortran-ordered
+    # array, a transpose(1,0,3,2) view of a contiguous buffer (what CCSDSolver.get_rdm returns), a strided slice view of a
+    # larger array and a read-only array; the arrays AND the buffers behind the views must be bit-identical afterwards.
+    for layout in LAYOUTS:
+        views, bufs = zip(*[as_layout(b, layout) for b in before])
+        bufs0 = [x.copy() for x in bufs]
+        args = ((tuple(views[:2]), tuple(views[2:])) if uhf else (views[0], views[1]))
+        try:
+            q1, q2 = fn(mol, *args)
+        except Exception as e:
+            if layout == "readonly" and isinstance(e, ValueError) and "read-only" in str(e) \
+                    and all(np.array_equal(x, y) for x, y in zip(bufs, bufs0)):
+                continue          # refusing a read-only argument cleanly is acceptable; corrupting it is not
+            chk.violation(key0 + ":exception:%s:%s" % (layout, type(e).__name__), "%s (%s arguments): %s" % (sh["name"], layout, e), dict(case, layout=layout))
             ok = False
+            continue
+        for lab, b, v, bf, bf0 in zip(labs, before, views, bufs, bufs0):
+            if not (np.array_equal(v, b) and np.array_equal(bf, bf0) and v.dtype == b.dtype and v.shape == b.shape):
+                chk.violation(key0 + ":input-mutated:%s:layout=%s" % (lab.split("-")[0], layout),
+                              "%s: the caller's %s array (%s) is altered by the padding call (max |change| = %.3g)" % (
+                                  sh["name"], lab, LAYOUT_DOC[layout], max(np.max(np.abs(v - b)), np.max(np.abs(bf - bf0)))), dict(case, layout=layout))
+                ok = False
+        if p1 is None:
+            p1, p2 = q1, q2
+        else:
+            for lab, o, o0 in zip(labs, (list(q1) + list(q2)) if uhf else [q1, q2], (list(p1) + list(p2)) if uhf else [p1, p2]):
+                if not np.array_equal(np.array(o), np.array(o0)):
+                    chk.violation(key0 + ":layout-dependent-result:%s:layout=%s" % (lab.split("-")[0], layout),
+                                  "%s: padded %s differs between C-contiguous and %s arguments" % (sh["name"], lab, LAYOUT_DOC[layout]), dict(case, layout=layout))
+                    ok = False
+    if p1 is None:
+        return False
     outs = (list(p1) + list(p2)) if uhf else [p1, p2]
     exps = f1 + f2
     for lab, o, e in zip(labs, outs, exps):
@@ -942,6 +1009,49 @@ def part_classical(chk, cases=None):
     return len(jobs)
 
 
+def part_pipeline(chk, cases=(("LiH_fc", "CCSD"), ("H4-_uhf_fz", "CCSD"), ("LiH_fc", "FCI"))):
+    """The real pipeline solver.get_rdm() -> pad_rdms_with_frozen_orbitals_*: the solver's OWN arrays (CCSDSolver returns
+    transpose views of pyscf buffers) must be bit-identical after the padding call; padded RDMs carry all electrons and
+    (observational) the solver's energy on the unfrozen molecule."""
+    from tangelo.algorithms.classical import FCISolver, CCSDSolver
+    from tangelo.toolboxes.molecular_computation.rdms import pad_rdms_with_frozen_orbitals_restricted, pad_rdms_with_frozen_orbitals_unrestricted
+    n = 0
+    info = {}
+    for mk, sk in cases:
+        case = {"part": "pipeline", "mol": mk, "solver": sk}
+        try:
+            mol = classical_molecule(mk)
+            solver = {"FCI": FCISolver, "CCSD": CCSDSolver}[sk](mol)
+            E = float(solver.simulate())
+            g1, g2 = solver.get_rdm()
+            arrs = (list(g1) + list(g2)) if mol.uhf else [g1, g2]
+            bases = [a.base if a.base is not None else a for a in arrs]
+            before = [np.array(a, copy=True) for a in arrs]
+            bases0 = [np.array(b, copy=True) for b in bases]
+            fn = pad_rdms_with_frozen_orbitals_unrestricted if mol.uhf else pad_rdms_with_frozen_orbitals_restricted
+            p1, p2 = fn(mol, g1, g2)
+        except Exception as e:
+            chk.violation("pipeline:exception:%s:%s" % (sk, type(e).__name__), "%s/%s: %s" % (mk, sk, e), case)
+            continue
+        n += 1
+        info["%s/%s" % (mk, sk)] = {"2rdm_is_view": bool(arrs[-1].base is not None), "c_contiguous": bool(arrs[-1].flags["C_CONTIGUOUS"])}
+        for x, (a, b, bs, bs0) in enumerate(zip(arrs, before, bases, bases0)):
+            if not (np.array_equal(a, b) and np.array_equal(bs, bs0)):
+                chk.violation("pipeline:input-mutated:%s:%s" % (sk, "unrestricted" if mol.uhf else "restricted"),
+                              "%s/%s: array %d returned by get_rdm() is altered by the padding call (max |change| = %.3g)" % (
+                                  mk, sk, x, max(np.max(np.abs(a - b)), np.max(np.abs(bs - bs0)))), case)
+        mol_full = mol.freeze_mos([[], []] if mol.uhf else [], inplace=False)
+        tr = float(sum(np.trace(np.array(x)) for x in (p1 if mol.uhf else [p1])))
+        e_full = float(mol_full.energy_from_rdms(list(p1), list(p2)) if mol.uhf else mol_full.energy_from_rdms(p1, p2))
+        if abs(tr - mol.n_electrons) > 1e-6:
+            chk.violation("pipeline:trace:%s" % sk, "%s/%s: tr(padded 1-RDM) = %.8f, electrons %d" % (mk, sk, tr, mol.n_electrons), case)
+        if abs(e_full - E) > (1e-8 if sk == "FCI" else 2e-6):
+            chk.violation("pipeline:energy:%s" % sk, "%s/%s: energy of the padded RDMs on the unfrozen molecule %.10f, solver energy %.10f" % (mk, sk, e_full, E), case)
+    chk.add_traces(n, "pipeline_get_rdm_pad")
+    chk.part("pipeline_get_rdm_pad", cases=n, layouts=info, note="frame condition on the solver's own arrays is exact; the energy/trace part is observational")
+    return n
+
+
 # ======================================================================================================
 def run(chk):
     rng = random.Random(chk.seed)
@@ -960,6 +1070,7 @@ def run(chk):
             n += part_rdm_history(chk)
     if "classical" not in skip:
         n += part_classical(chk)
+        n += part_pipeline(chk)
     chk.add_eval(n, n)
     chk.cov["rule"] = ("(i) VQE: configurations (molecule x ansatz x encoding x ordering) x grid parameter vectors, every measured RDM entry exact; "
                        "(ii) padding: every integer-amplitude state over the chosen support x every shape (restricted/ROHF/unrestricted, frozen "
@@ -1006,6 +1117,8 @@ def replay(chk, rec):
         r = replay_rdm_history(cfg, st, v, holder, case["history"], {"cur": None, "opt": None})
         print("  history replay:", r)
         return r is None and not c2.violations
+    elif case["part"] == "pipeline":
+        part_pipeline(c2, cases=[(case["mol"], case["solver"])])
     else:
         part_classical(c2, cases=[(case["mol"], case["solver"])])
     for key, detail, _ in c2.violations:
